@@ -15,7 +15,8 @@ tie        : harness bin `htmlser` (html5ever::serialize over RcDom) vs the extr
 oracle     : (a) WHATWG escaping (Python reference, cross-checked against the extracted Coq spec) vs the
              implementation; (b) round trip serialize -> parse_fragment(div) == tree on vocabulary trees with
              adversarial strings; (c) inner == between-tags(outer) for every element of built and parsed trees
-             (HTML raw-text elements, SVG and MathML parents, scripting on/off).
+             (HTML raw-text elements, SVG and MathML parents, scripting on/off); (d) the serialization of built
+             trees equals the WHATWG fragment serialization (decides where text may stay unescaped).
 """
 import json
 import os
@@ -99,23 +100,45 @@ def forest_desc(nodes):
     return " ".join(out)
 
 
-def ser_ref(n):
-    """reference serialization of a vocabulary tree (HTML namespace, ordinary elements, text)"""
-    if n[0] == "T":
-        return escape_ref(False, n[1])
-    s = "<" + n[2] + "".join(' %s="%s"' % (a[1], escape_ref(True, a[2])) for a in n[3]) + ">"
-    return s + "".join(ser_ref(c) for c in n[4]) + "</" + n[2] + ">"
+def attr_name_ref(a):
+    ns, local = a[0], a[1]
+    if ns == "-":
+        return local
+    if ns == "X":
+        return "xml:" + local
+    if ns == "N":
+        return "xmlns" if local == "xmlns" else "xmlns:" + local
+    if ns == "x":
+        return "xlink:" + local
+    return "unknown_namespace:" + local      # no prefix is stored in the tree; html5ever's convention
 
 
-def strings_of(n, acc):
-    if n[0] == "E":
-        for a in n[3]:
-            acc.append(a[2])
-        for c in n[4]:
-            strings_of(c, acc)
-    elif n[0] == "T":
-        acc.append(n[1])
-    return acc
+def esc_bytes(attr, s):
+    return escape_ref(attr, s).encode("utf8")
+
+
+def esc_bytes_defect16(attr, s):
+    """what the code of defect #16 writes: the lead byte of every U+0080..U+00BF char but NBSP is lost"""
+    return b"".join(bytes([ord(c)]) if in_c2_class(c) else escape_ref(attr, c).encode("utf8") for c in s)
+
+
+def ser_whatwg(n, parent, scripting, esc=esc_bytes):
+    """WHATWG 'serializing HTML fragments' for one node (bytes); parent = (ns, local) or None"""
+    k = n[0]
+    u = lambda x: x.encode("utf8")
+    if k == "T":
+        raw = parent is not None and parent[0] == "h" and (parent[1] in RAW or (parent[1] == "noscript" and scripting))
+        return u(n[1]) if raw else esc(False, n[1])
+    if k == "C":
+        return b"<!--" + u(n[1]) + b"-->"
+    if k == "D":
+        return b"<!DOCTYPE " + u(n[1]) + b">"
+    if k == "P":
+        return b"<?" + u(n[1]) + b" " + u(n[2]) + b">"
+    s = b"<" + u(n[2]) + b"".join(b" " + u(attr_name_ref(a)) + b'="' + esc(True, a[2]) + b'"' for a in n[3]) + b">"
+    if n[1] == "h" and n[2] in VOID:
+        return s
+    return s + b"".join(ser_whatwg(c, (n[1], n[2]), scripting, esc) for c in n[4]) + b"</" + u(n[2]) + b">"
 
 
 # ------------------------------------------------------------------ vocabulary (derived from the Rust sources)
@@ -190,29 +213,29 @@ ANY_NAMES = VOID[:6] + RAW + ["noscript", "title", "textarea", "div", "p", "span
                               "mi", "annotation-xml", "template", "table", "td", "a", "b", "pre", "x-y"]
 
 
-def any_tree(rng, depth, parent_void=False):
+def any_tree(rng, depth, c2=0.0):
     """arbitrary trees for inner/outer + correspondence (every namespace, raw-text names in foreign
     namespaces, comments, doctypes, processing instructions; void HTML elements get no children)"""
     r = rng.random()
     if depth == 0 or r < 0.3:
         k = rng.random()
         if k < 0.7:
-            return ("T", adv_string(rng, 6))
+            return ("T", adv_string(rng, 6, c2))
         if k < 0.85:
-            return ("C", adv_string(rng, 5))
+            return ("C", adv_string(rng, 5, c2))
         if k < 0.92:
             return ("D", rng.choice(["html", "", "x y"]))
-        return ("P", rng.choice(["xml", "x", ""]), adv_string(rng, 4))
+        return ("P", rng.choice(["xml", "x", ""]), adv_string(rng, 4, c2))
     ns = rng.choice(["h", "h", "h", "s", "s", "m", "o", "-"])
     name = rng.choice(ANY_NAMES)
     attrs = []
     for an in rng.sample(ATTR_NAMES, rng.choice([0, 0, 1, 2])):
         ans = rng.choice(["-", "-", "-", "x", "X", "N", "o", "h"])
-        attrs.append((ans, rng.choice([an, "xmlns", "href", "lang"]) if ans != "-" else an, adv_string(rng, 5)))
+        attrs.append((ans, rng.choice([an, "xmlns", "href", "lang"]) if ans != "-" else an, adv_string(rng, 5, c2)))
     children = []
     if not (ns == "h" and name in VOID):
         for _ in range(rng.choice([0, 1, 1, 2, 3])):
-            children.append(any_tree(rng, depth - 1))
+            children.append(any_tree(rng, depth - 1, c2))
     return ("E", ns, name, attrs, children)
 
 
@@ -301,6 +324,98 @@ ASSUME = ["text, attribute values and names are valid UTF-8 (StrTendril / LocalN
           "template contents are not serialized (RcDom's Serialize does not enter them)"]
 
 
+def judge_tree(scr, t, f, is_vocab):
+    """f = the six harness fields for the tree t; returns ([(kind, why, class)], number of elements judged)"""
+    res = []
+    ref1 = ser_whatwg(t, None, bool(scr))
+    defect16 = f[0] != "!" and unhx(f[0]) == ser_whatwg(t, None, bool(scr), esc_bytes_defect16) != ref1
+    if is_vocab:
+        # (b) round trip
+        if f[3] != forest_desc([t]) or f[4] != forest_desc(t[4]):
+            res.append(("roundtrip", "round trip: parse_fragment(serialize(t)) != t  (serialized %r)" % (
+                unhx(f[0])[:300] if f[0] != "!" else "panic"), "escape-drops-C2-lead-byte" if defect16 else None))
+    # (d) the serialization itself against the WHATWG algorithm (decides where text may stay raw)
+    if f[0] == "!" or unhx(f[0]) != ref1:
+        res.append(("whatwg", "serialization %r differs from the WHATWG fragment serialization %r" % (
+            unhx(f[0])[:300] if f[0] != "!" else "panic", ref1[:300]), "escape-drops-C2-lead-byte" if defect16 else None))
+    # (c) inner / outer
+    probs, n = judge_elements(f[5], scr)
+    res += [("inner-outer", "inner/outer: " + w, c) for w, c in probs]
+    return res, n
+
+
+def vocab_ok(t):
+    if t[0] == "T":
+        return t[1] != ""
+    last = False
+    for c in t[4]:
+        if c[0] == "T" and last:
+            return False
+        last = c[0] == "T"
+        if not vocab_ok(c):
+            return False
+    return True
+
+
+def reductions(t):
+    """smaller variants of a tree (one step)"""
+    if t[0] == "E":
+        ns, name, attrs, ch = t[1], t[2], t[3], t[4]
+        for i in range(len(ch)):
+            yield ("E", ns, name, attrs, ch[:i] + ch[i + 1:])
+        for i in range(len(attrs)):
+            yield ("E", ns, name, attrs[:i] + attrs[i + 1:], ch)
+        for i, a in enumerate(attrs):
+            for v2 in shorter(a[2]):
+                yield ("E", ns, name, attrs[:i] + [(a[0], a[1], v2)] + attrs[i + 1:], ch)
+        for i, c in enumerate(ch):
+            if c[0] == "E":
+                yield ("E", ns, name, attrs, ch[:i] + c[4] + ch[i + 1:])
+            for c2 in reductions(c):
+                yield ("E", ns, name, attrs, ch[:i] + [c2] + ch[i + 1:])
+    elif t[0] in ("T", "C", "D"):
+        for v2 in shorter(t[1]):
+            yield (t[0], v2)
+    elif t[0] == "P":
+        for v2 in shorter(t[2]):
+            yield ("P", t[1], v2)
+
+
+def shorter(s):
+    if len(s) > 1:
+        yield s[:len(s) // 2]
+        yield s[len(s) // 2:]
+    if 1 < len(s) <= 8:
+        for i in range(len(s)):
+            yield s[:i] + s[i + 1:]
+    if len(s) == 1 and s != "a":
+        yield ""
+
+
+def shrink_tree(ck, impl, scr, t, is_vocab, kind, budget=400):
+    """greedy delta debugging on the tree, judged by the same oracle on the implementation"""
+    def fails(c):
+        o = ck.run_lines(impl, [], ["T %d %s" % (scr, " ".join(desc(c, [])))], shards=1)[0]
+        f = o.split("\t")
+        if len(f) != 6:
+            return False
+        return any(k == kind and not (cls and ck.match_known(cls)) for k, w, cls in judge_tree(scr, c, f, is_vocab)[0])
+    progress = True
+    while progress and budget > 0:
+        progress = False
+        for c in reductions(t):
+            if is_vocab and not vocab_ok(c):
+                continue
+            budget -= 1
+            if budget <= 0:
+                break
+            if fails(c):
+                t = c
+                progress = True
+                break
+    return t
+
+
 def run(ck):
     proofs_ok = ck.coq_props(extra_targets=["Extract/ExtractHtmlSer.vo"])
     bindir = ck.cargo_build(["htmlser"])
@@ -336,7 +451,7 @@ def run(ck):
         atrees = [(rp["scripting"], tuple_tree(rp["tree"]))] if rp.get("what_kind") == "tree" else []
         htmls = [(rp["scripting"], rp["ctx"], rp["html"])] if "html" in rp else []
     else:
-        ns_, nv, na, nh = (6000, 2500, 2500, 2500) if ck.quick else (300000, 120000, 60000, 60000)
+        ns_, nv, na, nh = (40000, 15000, 8000, 8000) if ck.quick else (400000, 150000, 80000, 80000)
         strings = []
         corpus = os.path.join(ROOT, "corpus", "c07_strings.txt")
         if os.path.exists(corpus):
@@ -350,7 +465,8 @@ def run(ck):
             strings.append((rng.randrange(2), adv_string(rng, 12)))
         vtrees = [(rng.randrange(2), vocab_tree(rng, vocab, rng.choice([1, 2, 3, 4]))) for _ in range(nv)]
         atrees = [(rng.randrange(2), ("E", rng.choice(["h", "s", "m"]), rng.choice(ANY_NAMES[6:]), [],
-                                     [any_tree(rng, 3) for _ in range(rng.choice([1, 2, 3]))])) for _ in range(na)]
+                                     [any_tree(rng, 3, c2) for _ in range(rng.choice([1, 2, 3]))]))
+                  for c2 in [1.0 if rng.random() < 0.1 else 0.0 for _ in range(na)]]
         htmls = [(rng.randrange(2), rng.choice(["-", "-", "h:div", "h:body", "s:svg", "m:math", "h:template", "h:table"]),
                   rand_html(rng)) for _ in range(nh)]
 
@@ -369,7 +485,7 @@ def run(ck):
         got = None if a.startswith(("!", "?", "<no-output")) else unhx(a)
         if got != ref:
             cls = None
-            if got is not None and any(in_c2_class(c) for c in s) and got == ref.replace(b"\xc2", b""):
+            if got is not None and got == esc_bytes_defect16(m, s):
                 cls = "escape-drops-C2-lead-byte"
             if cls and ck.match_known(cls):
                 esc_known += 1
@@ -405,7 +521,8 @@ def run(ck):
         f = o.split("\t")
         h_as_t.append("T %d %s" % (scr, f[0]) if len(f) == 7 else None)
     model_t = ck.run_lines(model, [variant], tl + [x for x in h_as_t if x])
-    rt_fail = rt_known = io_fail = io_known = dis_t = 0
+    rt_fail = rt_known = io_fail = io_known = dis_t = ser_fail = ser_known = 0
+    counts = {}
     elems = 0
     sizes = {}
     mi = 0
@@ -420,8 +537,10 @@ def run(ck):
                 ck.broken.append("correspondence serializer model(%s) vs html5ever::serialize on %s: impl %s model %s"
                                  % (variant, case[:300], want[:300], b_line[:300]))
 
+    reported = {}
     for idx, ((scr, t), line, o) in enumerate(zip(vtrees + atrees, tl, impl_t)):
         f = o.split("\t")
+        is_vocab = idx < len(vtrees)
         if len(f) != 6:
             rt_fail += 1
             ck.violation("harness failed on a tree: %s" % o[:100], {"kind": "failing-input", "what_kind": "tree",
@@ -430,35 +549,27 @@ def run(ck):
             continue
         corr(line, f, model_t[mi])
         mi += 1
-        if idx < len(vtrees):
+        if is_vocab:
             sizes[len(line.split()) // 8] = sizes.get(len(line.split()) // 8, 0) + 1
-            exp4 = forest_desc([t])
-            exp5 = forest_desc(t[4])
-            if f[3] != exp4 or f[4] != exp5:
-                cls = None
-                strs = strings_of(t, [])
-                ref1 = ser_ref(t).encode("utf8")
-                if f[0] != "!" and any(in_c2_class(c) for s in strs for c in s) and unhx(f[0]) == ref1.replace(b"\xc2", b""):
-                    cls = "escape-drops-C2-lead-byte"
-                if cls and ck.match_known(cls):
-                    rt_known += 1
-                else:
-                    rt_fail += 1
-                if rt_fail <= 3 or cls:
-                    ck.violation("round trip: parse_fragment(serialize(t)) != t  (serialized %r)" % unhx(f[0])[:200],
-                                 {"kind": "failing-input", "what_kind": "roundtrip", "scripting": scr, "tree": t,
-                                  "serialized": f[0], "reparsed_outer": f[3][:2000], "expected_outer": exp4[:2000]},
-                                 case_class=cls)
-        probs, n = judge_elements(f[5], scr)
+        probs, n = judge_tree(scr, t, f, is_vocab)
         elems += n
-        for why, cls in probs:
-            if cls and ck.match_known(cls):
-                io_known += 1
-            else:
-                io_fail += 1
-            if io_fail <= 3 or cls:
-                ck.violation("inner/outer: " + why, {"kind": "failing-input", "what_kind": "tree", "scripting": scr, "tree": t},
-                             case_class=cls)
+        for kind, why, cls in probs:
+            known = bool(cls and ck.match_known(cls))
+            counts[(kind, known)] = counts.get((kind, known), 0) + 1
+            if known:
+                ck.violation(why, {}, case_class=cls)
+            elif reported.get(kind, 0) < 3:
+                reported[kind] = reported.get(kind, 0) + 1
+                small = shrink_tree(ck, impl, scr, t, is_vocab, kind) if reported[kind] == 1 and not ck.replay else t
+                line2 = "T %d %s" % (scr, " ".join(desc(small, [])))
+                f2 = ck.run_lines(impl, [], [line2], shards=1)[0].split("\t")
+                why2 = next((w for k, w, c in (judge_tree(scr, small, f2, is_vocab)[0] if len(f2) == 6 else []) if k == kind), why)
+                ck.violation(why2, {"kind": "failing-input", "what_kind": "roundtrip" if is_vocab else "tree",
+                                    "scripting": scr, "tree": small, "unshrunk_tree": t if small is not t else None,
+                                    "html": (ser_whatwg(small, None, bool(scr))).decode("utf8", "replace")}, case_class=cls)
+    rt_fail, rt_known = counts.get(("roundtrip", False), 0), counts.get(("roundtrip", True), 0)
+    ser_fail, ser_known = counts.get(("whatwg", False), 0), counts.get(("whatwg", True), 0)
+    io_fail, io_known = counts.get(("inner-outer", False), 0), counts.get(("inner-outer", True), 0)
     for (scr, ctx, h), line, o, t_line in zip(htmls, hl, impl_h, h_as_t):
         f = o.split("\t")
         if len(f) != 7:
@@ -498,7 +609,8 @@ def run(ck):
         "elements_inner_outer": elems, "raw_text_named_parents": raw_parents, "of_which_foreign": foreign_raw,
         "tree_size_histogram(tokens/8)": sizes,
         "escape_failures": esc_fail, "roundtrip_failures": rt_fail, "inner_outer_failures": io_fail,
-        "known_finding_hits": {"escape": esc_known, "roundtrip": rt_known, "inner_outer": io_known},
+        "whatwg_serialization_failures": ser_fail,
+        "known_finding_hits": {"escape": esc_known, "roundtrip": rt_known, "inner_outer": io_known, "serialization": ser_known},
         "correspondence_disagreements": dis_w + dis_t, "spec_vs_reference_disagreements": specdis,
         "explanation": "Props/C07.v proves the escaping and inner/outer statements for the model (all strings, all trees); "
                        "the model is tied to serialize/mod.rs + rcdom by running both on the same strings / trees; the "
